@@ -808,6 +808,8 @@ type c20Plan struct {
 	symm    bool
 	ghostOp bool
 	beyondF bool
+	labs    string // "all" hash orders, "idrev" (identity and reversed), "id", "other" (all but identity and reversed)
+	shapes  bool   // only the first labelled tree of every unlabelled shape
 }
 
 func c20Configs() []*c20Cfg {
@@ -827,48 +829,61 @@ func c20Configs() []*c20Cfg {
 	for _, a := range wide.active {
 		wide.weights[a] = 100
 	}
-	q := func(a, b int) int { return verifmc.Pick(a, b) }
-	plans := map[int][]c20Plan{
-		1: {{v4, 8, true, false, true}, {v211, 7, false, true, true}, {v3, 6, false, false, true}, {wide, 7, true, false, true}},
-		2: {{v4, q(8, 9), true, false, true}, {v211, q(7, 8), false, true, true}, {v3, 6, false, false, true}, {wide, q(7, 8), true, false, true}},
-		3: {{v4, 8, true, false, false}, {v4, q(6, 7), true, false, true}, {v211, q(6, 7), false, true, false}, {v3, 6, false, false, false}, {wide, q(7, 8), true, false, false}},
-		4: {{v4, q(7, 8), true, false, false}, {v211, 6, false, false, false}},
-		5: {{v4, q(6, 7), true, false, false}, {v211, q(5, 6), false, false, false}},
-	}
-	if thorough {
-		plans[3] = append(plans[3], c20Plan{v2111, 8, true, false, false}, c20Plan{v4, 7, false, false, false})
-		plans[4] = append(plans[4], c20Plan{wide, 7, true, false, false}, c20Plan{v2111, 7, true, false, false}, c20Plan{v211, 6, false, true, true})
+	var plans map[int][]c20Plan
+	if !thorough {
+		plans = map[int][]c20Plan{
+			1: {{v4, 8, true, false, true, "id", false}, {v211, 7, false, true, true, "id", false}, {v3, 6, false, false, true, "id", false}, {wide, 7, true, false, true, "id", false}},
+			2: {{v4, 7, true, false, true, "idrev", false}, {v211, 7, false, true, true, "idrev", false}, {v3, 6, false, false, true, "idrev", false}, {wide, 6, true, false, true, "idrev", false}},
+			3: {{v211, 6, false, false, false, "idrev", false}, {v211, 5, false, true, true, "other", false}, {v4, 6, true, false, false, "idrev", false}, {wide, 6, true, false, false, "id", false}},
+			4: {{v211, 5, true, false, false, "idrev", false}, {v4, 6, true, false, false, "id", true}},
+			5: {{v211, 5, true, false, false, "id", true}},
+		}
+	} else {
+		plans = map[int][]c20Plan{
+			1: {{v4, 9, false, true, true, "id", false}, {v211, 8, false, true, true, "id", false}, {v3, 7, false, false, true, "id", false}, {wide, 8, true, false, true, "id", false}, {v2111, 8, false, false, true, "id", false}},
+			2: {{v4, 8, true, false, true, "idrev", false}, {v211, 8, false, true, true, "idrev", false}, {v3, 7, false, false, true, "idrev", false}, {wide, 7, true, false, true, "idrev", false}, {v2111, 7, true, false, true, "idrev", false}},
+			3: {{v211, 7, false, false, false, "all", false}, {v211, 6, false, true, true, "all", false}, {v4, 7, true, false, false, "idrev", false}, {v4, 6, false, false, true, "id", false}, {wide, 7, true, false, false, "idrev", false}, {v2111, 7, true, false, false, "idrev", false}},
+			4: {{v211, 6, true, false, false, "all", false}, {v211, 6, false, true, true, "id", false}, {v4, 7, true, false, false, "id", false}, {wide, 6, true, false, false, "id", true}, {v2111, 6, true, false, false, "id", true}},
+			5: {{v211, 6, true, false, false, "idrev", false}, {v4, 6, true, false, false, "id", true}},
+		}
 	}
 	for n := 1; n <= 5; n++ {
 		seenShape := map[string]bool{}
 		verifmc.ParentVectors(n, func(parent []int) {
 			firstOfShape := !seenShape[c20Shape(parent)]
 			seenShape[c20Shape(parent)] = true
-			// quick, n=5: one labelled representative per unlabelled shape (9 shapes)
-			if n == 5 && !thorough && !firstOfShape {
-				return
-			}
 			type lab struct {
 				perm []int
 				name string
 			}
-			labs := []lab{{c20Seq(n), "id"}}
-			if n >= 2 {
-				rev := make([]int, n)
-				for i := range rev {
-					rev[i] = n - 1 - i
+			var labs []lab
+			verifmc.Permutations(n, func(p []int) {
+				labs = append(labs, lab{append([]int{}, p...), fmt.Sprintf("perm%v", p)})
+			})
+			for _, pl := range plans[n] {
+				if pl.shapes && !firstOfShape {
+					continue
 				}
-				labs = append(labs, lab{rev, "rev"})
-			}
-			if n == 3 || (n == 4 && thorough) {
-				// every assignment of hash order to the nodes
-				labs = labs[:0]
-				verifmc.Permutations(n, func(p []int) {
-					labs = append(labs, lab{append([]int{}, p...), fmt.Sprintf("perm%v", p)})
-				})
-			}
-			for _, l := range labs {
-				for _, pl := range plans[n] {
+				for _, l := range labs {
+					isID, isRev := true, n >= 2
+					for i, x := range l.perm {
+						isID = isID && x == i
+						isRev = isRev && x == n-1-i
+					}
+					switch pl.labs {
+					case "id":
+						if !isID {
+							continue
+						}
+					case "idrev":
+						if !isID && !isRev {
+							continue
+						}
+					case "other":
+						if isID || isRev {
+							continue
+						}
+					}
 					c := &c20Cfg{
 						name:    fmt.Sprintf("tree%v/%s/%s/d%d", parent, l.name, pl.vc.name, pl.depth),
 						parent:  append([]int{}, parent...),
@@ -879,6 +894,9 @@ func c20Configs() []*c20Cfg {
 					}
 					if pl.beyondF {
 						c.name += "/beyondF"
+					}
+					if pl.symm {
+						c.name += "/symm"
 					}
 					out = append(out, c.finish())
 				}
